@@ -53,12 +53,15 @@ def meta_scenarios():
     rows1 = [{"args": [I(1)], "nv": 0}, {"args": [I(2)], "nv": 0}, {"args": [V(0)], "nv": 1}]
     rows2 = [{"args": [I(1), A("a")], "nv": 0}, {"args": [C("f", V(0)), A("b")], "nv": 1}, {"args": [I(2), A("b")], "nv": 0}]
     scns = []
-    for (g, qnv), style, yields, rp in itertools.product([(C("k1", V(0), V(1)), 2), (C("k2", V(0), V(1)), 2), (C("k3", V(0), V(1)), 2), (C("k4", V(0), V(1)), 2)],
-                                                       STYLES, (True, False), [(0, 0), (1, 1), (2, 0), (3, 2)]):
+    CK = ("plain", "wrapped", "method", "partial", "object")
+    for idx, ((g, qnv), style, yields, rp) in enumerate(itertools.product([(C("k1", V(0), V(1)), 2), (C("k2", V(0), V(1)), 2), (C("k3", V(0), V(1)), 2), (C("k4", V(0), V(1)), 2)],
+                                                       STYLES, (True, False), [(0, 0), (1, 1), (2, 0), (3, 2)])):
         steps = [[{"op": "load", "e": 1, "script": "P", "ow": True}],
                  [{"op": "register", "e": 1, "name": "nat", "arity": -1 if style == "variadic" else 1, "style": style, "fid": "nat", "rows": rows1,
+                   "ckind": CK[idx % 5] if style == "inferred" else "plain",
                    "raise": {"call": rp[0], "row": rp[1], "exc": ["custom", "TypeError", "ValueError", "KeyError", "RuntimeError"][(rp[0] + rp[1] + len(style) + int(yields)) % 5]}, "yields": yields}],
                  [{"op": "register", "e": 1, "name": "nat2", "arity": -1 if style == "variadic" else 2, "style": style, "fid": "nat2", "rows": rows2,
+                   "ckind": CK[(idx // 5 + 1) % 5] if style == "inferred" else "plain",
                    "raise": {"call": 0, "row": 0}, "yields": not yields}],
                  [{"op": "assert", "e": 1, "term": C("nat", I(0)), "atEnd": True, "r": 0}],
                  [{"op": "solve", "e": 1, "r": 1, "goal": g, "qnv": qnv, "k": 0}],
